@@ -113,7 +113,9 @@ func c17r1(c *Check) {
 							v = x.Call.Args[0]
 							continue
 						case "bytes.NewReader", "strings.NewReader", "bytes.NewBuffer", "bytes.NewBufferString":
-							return x.Name() + "@" + x.Parent().Name()
+							// the reader and what it reads: a retry must re-send the same bytes
+							src := resolve(x.Call.Args[0])
+							return x.Name() + "@" + x.Parent().Name() + "|" + src.Name() + "@" + fmt.Sprintf("%p", src)
 						}
 					}
 					break
@@ -128,7 +130,8 @@ func c17r1(c *Check) {
 					return []string{"body:set:" + readerOf(cc.Args[3])}
 				case "bytes.NewReader", "strings.NewReader", "bytes.NewBuffer", "bytes.NewBufferString":
 					if v, ok := in.(ssa.Value); ok {
-						return []string{"reader:new:" + v.Name() + "@" + in.Parent().Name()}
+						src := resolve(cc.Args[0])
+						return []string{"reader:new:" + v.Name() + "@" + in.Parent().Name() + "|" + src.Name() + "@" + fmt.Sprintf("%p", src)}
 					}
 				}
 			}
@@ -171,6 +174,20 @@ func c17r1(c *Check) {
 				// armed: the body is set between the two attempts to a reader that was itself created between them
 				armed := false
 				fresh := map[string]bool{}
+				// ... over the same bytes as every body set before on this path
+				var srcs []string
+				for _, e2 := range pa.Events[:j] {
+					if strings.HasPrefix(e2.Class, "body:set:") {
+						if k := strings.Index(e2.Class, "|"); k >= 0 {
+							srcs = append(srcs, e2.Class[k+1:])
+						}
+					}
+				}
+				for _, x := range srcs {
+					if x != srcs[0] && badBody == "" {
+						badBody = "a retry re-sends different bytes than the first attempt (the request body is rebuilt from another buffer than the one the request — and its Content-Length — was created with): every re-submission is rejected or carries another payload: " + pa.String()
+					}
+				}
 				for _, e2 := range pa.Events[lastDo+1 : j] {
 					if strings.HasPrefix(e2.Class, "reader:new:") {
 						fresh[strings.TrimPrefix(e2.Class, "reader:new:")] = true
